@@ -88,7 +88,7 @@ def json_roundtrip_builtin_only(m):
         if k == "n":
             return ["b", "int"]
         if k in ("p", "c", "v", "r"):
-            return [k, fix(t[1])]
+            return [k, fix(t[1])] + list(t[2:])
         if k == "a":
             return ["a", fix(t[1]), t[2]]
         if k == "fn":
